@@ -91,6 +91,10 @@ pub fn world() -> &'static mut World {
             });
             WORLD = Box::into_raw(w);
             install_handlers();
+            // panics of the system under test are outcomes (caught by sut_call), not console noise
+            if std::env::var_os("USIM_PANIC_TRACE").is_none() {
+                std::panic::set_hook(Box::new(|_| {}));
+            }
         }
         &mut *WORLD
     }
